@@ -29,8 +29,12 @@ CLAIMED = {
             "with the Lean models for every opening mode (limits 0..finest+1, header_only on a directory holding only the Header, "
             "maxmins).", "Float tokens are opaque strings in Lean (kept verbatim by parser and renderer); their numeric value and Python's str(float) are compared by the oracle only. Headers that are not a text of the renderer (tabs, several blanks between tokens, "
             "more level blocks than the stated finest level as in the shipped 2D asset) are outside the parse-after-render theorems; they are still covered by the differential comparison of the parser model."),
-    "C03": ("Lean 4 completeness theorem of the validator walk + differential correspondence check",
-            "Proof: Taste.shapeOK_complete (every well-formed binary file is accepted by the byte walk of mp_fun_shape), "
+    "C03": ("Lean 4 completeness theorem of the whole validator (well-formed plotfile => reported good) + differential correspondence check",
+            "Proof: C03.well_formed_accepted (Taste.tastePlt_complete: EVERY well-formed plotfile - header a text of the header renderer, every selected level a rendered level header plus "
+            "binary files that are concatenations of canonical FABs of the announced sizes at the recorded offsets - is reported good by the validator model, for every number of fields / levels / boxes / files, "
+            "every distribution and listing order of the boxes, every level limit within the header's levels and every combination of binary_headers / binary_shape), C03.certificate_sound (the executable "
+            "well-formedness check pltWFB, evaluated by the driver on the bytes of every generated plotfile, implies the hypothesis), offset_order_unique (insertion by offset of any permutation of a strictly "
+            "increasing list gives that list), built from the two parse-after-render theorems (global header, level header followed by further lines), Taste.shapeOK_complete (every well-formed binary file is accepted by the byte walk of mp_fun_shape), "
             "headersOK_entry, isLine_canonB, parse_canonB; the whole-plotfile validator model (Taste.tastePlt) is compared with "
             "Taster on every generated well-formed plotfile under all 16 option sets, limits and both modes.",
             "binary_data and boxes_coordinates compare floats (numpy isclose): outside the Lean model, decided on the real code against the oracle."),
